@@ -81,8 +81,13 @@ def main():
     caught = sum(1 for r in results.values() if r.get('caught'))
     quiet = sum(1 for r in results.values() if r.get('exit') == 0)
     print(f'{a.dir}: exit 1 with VIOLATION on {caught}, exit 0 on {quiet}, of {len(results)}')
-    with open(os.path.join(SEEDED, 'RESULTS.json'), 'w') as fh:
-        json.dump(results, fh, indent=1)
+    # merge into the stored results, so that a run on a few ids does not forget the others
+    rp = os.path.join(SEEDED, 'RESULTS.json')
+    stored = json.load(open(rp)) if os.path.exists(rp) else {}
+    stored.update(results)
+    stored = {k: v for k, v in stored.items() if os.path.isdir(os.path.join(SEEDED, k))}
+    with open(rp, 'w') as fh:
+        json.dump(stored, fh, indent=1, sort_keys=True)
 
 
 if __name__ == '__main__':
